@@ -16,7 +16,7 @@ Proved for all inputs (no size bound), about the line-by-line mirror of `explain
   sub-list of the input and unsatisfiable after an accepted certificate with the empty clause.
 * `propagate_fuel_suffices` — the fuel `NbVars + 2` of the fix-point never runs out.
 * `checkChan_eq` — `UnsatChan` = `Unsat` on the certificate cut after its first empty clause.
-* `checker_complete_up_statement` (a `Prop`, not proved) with the witnesses
+* `checker_complete_up_statement` (a `Prop`; proved in `GS/Props/C08_Complete.lean`) with the witnesses
   `complete_needs_no_repeat`, `complete_needs_no_repeat_line`, `complete_needs_no_compl`.
 
 Hypotheses (`Pb.Ok`, established by `mkPb_ok` for parsed problems): `NbClauses = len(Clauses)`
@@ -832,7 +832,7 @@ example : ((runAll exPb [[2], [3], []]).pb.clauses = exPb.clauses ∧
 
 /-- Every certificate accepted by the verified RUP checker `GS.rupValid` is accepted by the
     mirror, provided no clause of the problem and no line repeats a literal and no line contains
-    complementary literals.  NOT proved here (it needs confluence of unit propagation between the
+    complementary literals.  Proved in `GS/Props/C08_Complete.lean` (`checker_complete_up`), not here (it needs confluence of unit propagation between the
     two scan orders / start bindings, on top of `propagate_fuel_suffices` below); it was tested on
     4000 random (problem, certificate) pairs without counterexample. -/
 def checker_complete_up_statement : Prop :=
